@@ -16,7 +16,7 @@ def strat_yield(tier):
 
 
 def strat_sync(tier):
-    return gen.programs(gen.Cfg(max_tasks=12 if tier == "quick" else 40, sync=True, ctx=("rec",), dag=False, flush_faults=("raise", "hard", "nested"), cancels=True,
+    return gen.programs(gen.Cfg(max_tasks=12 if tier == "quick" else 40, sync=True, ctx=("rec",), dag=False, flush_faults=("raise", "hard", "nested"), cancels=True, itemvalue=True,
                                 convs=("call", "value", "wrapper"), shapes=("reentry", "reentry", "reentry", "free", "comb")))
 
 
